@@ -590,6 +590,7 @@ fn deep_run(seed: u64, run: u64) -> RunOutcome {
     out.stats.steps += sched.steps;
     out.stats.add("deep.yield_points", sched.steps);
     out.stats.add("sched.switches", sched.switches);
+    out.stats.add("sched.lock_handoffs", sched.lock_handoffs);
     out.stats.add("sched.aligned_starts", sched.aligned_pairs);
     if sched.free_running {
         out.stats.inc("inconclusive.schedule_infeasible");
